@@ -41,6 +41,13 @@ def build_service(rec, behaviours=None):
         b = Unicode
         tag = XmlAttribute(Unicode)
 
+    from spyne import AnyXml
+
+    class Frag(ComplexModel):
+        __namespace__ = TNS
+        x = XmlAttribute(AnyXml)
+        y = AnyXml
+
     class MiniService(Service):
         @rpc(Integer, _returns=Integer)
         def echo(ctx, n):
@@ -198,6 +205,15 @@ def build_service(rec, behaviours=None):
         def noargs(ctx):
             rec.enter('noargs')
             return 42
+
+        if beh.get('anyxml'):
+            # (opt-in: an attribute of type AnyXml has no valid schema, so applications with an lxml validator cannot have it)
+            @rpc(Frag, _returns=Unicode)
+            def echo_frag(ctx, c):
+                from lxml import etree
+                show = lambda e: None if e is None else etree.tostring(e).decode('utf8', 'replace')
+                rec.enter('echo_frag', None if c is None else show(c.x), None if c is None else show(c.y))
+                return None if c is None else show(c.x)
 
     return MiniService, Item
 
